@@ -37,6 +37,31 @@ type RealClient struct {
 	TAlloc    *client.TCPAllocation // RFC 6062 allocation (flavour e2e-tcprelay)
 	TConns    []*realTConn
 	tcpDone   bool // end of plan reached: the application holds nothing any more
+	gaps      [][2]int64 // [closed at, allocated again at]: the application closed its socket and allocated anew
+}
+
+// closedAround: at t (give or take margin) the application had no relayed socket.
+func (rc *RealClient) closedAround(t, margin int64) bool {
+	if rc.Closed && t >= rc.ClosedAt-margin {
+		return true
+	}
+	for _, g := range rc.gaps {
+		if t >= g[0]-margin && t <= g[1]+margin {
+			return true
+		}
+	}
+	return false
+}
+
+// sameEpoch: no close/re-allocate lies between t1 and t2 (what the first allocation was told -
+// permissions, channels - the second knows nothing of).
+func (rc *RealClient) sameEpoch(t1, t2 int64) bool {
+	for _, g := range rc.gaps {
+		if g[0] >= t1 && g[0] <= t2 {
+			return false
+		}
+	}
+	return true
 }
 
 type writeRec struct {
@@ -149,9 +174,28 @@ func (w *SrvWorld) execReal(rc *RealClient, op *Op) {
 	switch op.Kind {
 	case "alloc":
 		rc.allocStart = time.Now().Unix()
+		w.e2eMu.Lock()
+		again := rc.Relay != nil && rc.Closed
+		closedAt := rc.ClosedAt
+		w.e2eMu.Unlock()
+		if rc.Relay != nil && !again {
+			return
+		}
 		w.lib("alloc", func() {
 			conn, err := cli.Allocate()
 			w.e2eMu.Lock()
+			if again {
+				// the application allocates anew on the same client after having closed its socket
+				if err != nil {
+					rc.Err = err
+					w.e2eMu.Unlock()
+					w.K.Violate(&Violation{Property: "C14", Class: "allocate-failed", Key: kv("when", "again"), Detail: fmt.Sprintf("real client %s could not allocate again after Close: %v", rc.Spec.ID, err)})
+					return
+				}
+				rc.gaps = append(rc.gaps, [2]int64{closedAt, w.K.Now()})
+				rc.Closed = false
+				w.K.Stats.Probe("e2e_reallocated")
+			}
 			rc.Relay, rc.Err = conn, err
 			rc.allocAt = w.K.Now()
 			rc.allocDone = true
@@ -236,6 +280,24 @@ func (w *SrvWorld) realRelayOf(id string) *net.UDPAddr {
 
 // checkE2E (C14): every probe sent while the relayed socket was open arrived, in both
 // directions; closing the socket removed the allocation.
+// staleRefresh0: the allocation this client made after a Close was ended by a Refresh(lifetime
+// 0) although the application has not closed it: the retransmission of the earlier Close's
+// request, whose answer was lost (known finding KF-C14-2).
+func (w *SrvWorld) staleRefresh0(rc *RealClient) bool {
+	if len(rc.gaps) == 0 || rc.Closed {
+		return false
+	}
+	g := rc.gaps[len(rc.gaps)-1]
+	w.Mon.mu.Lock()
+	defer w.Mon.mu.Unlock()
+	for _, a := range w.Mon.M.Allocs[ustr(rc.Addr)] {
+		if a.End != nil && a.EndCause == "refresh0" && a.Created.Lo >= g[0] && a.End.Lo >= g[1]-sec {
+			return true
+		}
+	}
+	return false
+}
+
 func (w *SrvWorld) checkE2E() {
 	w.e2eMu.Lock()
 	defer w.e2eMu.Unlock()
@@ -271,7 +333,7 @@ func (w *SrvWorld) checkE2E() {
 			continue
 		}
 		for _, wr := range rc.Writes {
-			if rc.Closed && wr.T >= rc.ClosedAt {
+			if rc.closedAround(wr.T, 0) {
 				continue
 			}
 			if w.partitioned(wr.T, wr.T+2*sec) {
@@ -325,6 +387,11 @@ func (w *SrvWorld) checkE2E() {
 				}
 				p.mu.Unlock()
 			}
+			if !got && w.staleRefresh0(rc) {
+				w.K.Violate(&Violation{Property: "C14", Class: "probe-lost", Key: kv("cause", "stale-refresh0-after-reallocate", "dir", "c2p"),
+					Detail: fmt.Sprintf("payload written to %s at %d ns never reached the peer: the allocation made after Close was deleted by the retransmitted Refresh(0) of that Close (WriteTo err=%v)", wr.Peer, wr.T, wr.Err)})
+				break
+			}
 			if !got {
 				w.K.Violate(&Violation{Property: "C14", Class: "probe-lost", Key: kv("dir", "c2p", "horizon", horizon(wr.T-rc.allocAt)),
 					Detail: fmt.Sprintf("payload written to %s at %d ns (%.0f s after Allocate) never reached the peer (WriteTo done=%v err=%v)", wr.Peer, wr.T, float64(wr.T-rc.allocAt)/1e9, wr.Done, wr.Err)})
@@ -332,7 +399,7 @@ func (w *SrvWorld) checkE2E() {
 			}
 		}
 		for key, pl := range w.PeerProbes {
-			if pl.Target != rc.Spec.ID || (rc.Closed && pl.T >= rc.ClosedAt-sec) || w.partitioned(pl.T, pl.T+2*sec) {
+			if pl.Target != rc.Spec.ID || rc.closedAround(pl.T, sec) || w.partitioned(pl.T, pl.T+2*sec) {
 				continue
 			}
 			got := false
@@ -347,9 +414,14 @@ func (w *SrvWorld) checkE2E() {
 			// a peer can reach the client only once the client has asked for a permission for it
 			permitted := false
 			for _, wr := range rc.Writes {
-				if mustUDPAddr(wr.Peer).IP.Equal(mustUDPAddr(pl.From).IP) && wr.T+5*sec <= pl.T {
+				if mustUDPAddr(wr.Peer).IP.Equal(mustUDPAddr(pl.From).IP) && wr.T+5*sec <= pl.T && rc.sameEpoch(wr.T, pl.T) && !rc.closedAround(wr.T, 0) {
 					permitted = true
 				}
+			}
+			if !got && pl.Expect && permitted && w.staleRefresh0(rc) {
+				w.K.Violate(&Violation{Property: "C14", Class: "probe-lost", Key: kv("cause", "stale-refresh0-after-reallocate", "dir", "p2c"),
+					Detail: fmt.Sprintf("datagram %s sent by %s at %d ns was never read: the allocation made after Close was deleted by the retransmitted Refresh(0) of that Close", key, pl.From, pl.T)})
+				break
 			}
 			if !got && pl.Expect && permitted {
 				w.K.Violate(&Violation{Property: "C14", Class: "probe-lost", Key: kv("dir", "p2c", "horizon", horizon(pl.T-rc.allocAt)),
